@@ -28,13 +28,16 @@ func ctlJobs(tier string) []Job {
 				for _, capa := range caps {
 					small := cons == "none" || (c == "close" && (cons == "events" || cons == "errors"))
 					if tier == "thorough" {
+						if capa == 4 && c != "close" {
+							continue // the third capacity only for the plain Close program
+						}
 						// bound 2 everywhere; revisits of a global state with no fewer preemptions are cut (state-key
 						// pruning: the oracles of C05/C06/C13 are end-state and per-thread, which is what the key preserves)
 						jobs = append(jobs, Job{Family: "ctl", Bound: 2, Prune: true,
 							Params: map[string]any{"hist": h, "ctl": c, "cons": cons, "cap": capa}})
 						// then, as far as the time allows: no preemption bound at all (default capacity)
-						if capa == -1 {
-							jobs = append(jobs, Job{Family: "ctl", Bound: -1, Prune: true, Deepening: true, MaxSeconds: 8,
+						if capa == -1 && cons != "errors" && cons != "both-stop2" {
+							jobs = append(jobs, Job{Family: "ctl", Bound: -1, Prune: true, Deepening: true, MaxSeconds: 6,
 								Params: map[string]any{"hist": h, "ctl": c, "cons": cons, "cap": capa}})
 						}
 						_ = small
